@@ -159,7 +159,7 @@ type Explorer struct {
 	envs chan *Env
 	nenv atomic.Int64
 
-	Nodes, Txs, MemoHits, States, EnvNanos atomic.Int64
+	Nodes, Txs, MemoHits, ColdHits, States, EnvNanos, RunTxs atomic.Int64
 	stateSet                               sync.Map
 	mu                                     sync.Mutex
 	Mis                                    []Mismatch
@@ -209,6 +209,12 @@ func (x *Explorer) addMis(m Mismatch) {
 		x.Mis = append(x.Mis, m)
 	}
 	x.mu.Unlock()
+}
+
+// taskMemo: per-task (hence deterministic) memo tables keyed by the hash of the persisted bytes.
+type taskMemo struct {
+	sub  map[string]int    // state -> largest remaining depth already expanded from it
+	cold map[string]string // state -> result of the cold-dump transaction
 }
 
 type task struct {
@@ -263,13 +269,13 @@ func (x *Explorer) Run() {
 	x.R.ParFor(len(tasks), func(i int) {
 		e := x.getEnv()
 		t := tasks[i]
-		memo := map[string]int{}
+		memo := &taskMemo{sub: map[string]int{}, cold: map[string]string{}}
 		x.dfs(e, t, nil, "", memo)
 		x.putEnv(e)
 	})
 }
 
-func (x *Explorer) dfs(e *Env, t task, hist []string, seq string, memo map[string]int) {
+func (x *Explorer) dfs(e *Env, t task, hist []string, seq string, memo *taskMemo) {
 	remaining := x.K - len(seq)
 	if remaining <= 0 || x.R.Expired() {
 		return
@@ -306,7 +312,7 @@ func (x *Explorer) dfs(e *Env, t task, hist []string, seq string, memo map[strin
 	}
 }
 
-func (x *Explorer) node(e *Env, t task, hist []string, seq string, memo map[string]int) {
+func (x *Explorer) node(e *Env, t task, hist []string, seq string, memo *taskMemo) {
 	f := t.f
 	seg := hist[len(hist)-1]
 	pop := e.Push()
@@ -356,13 +362,27 @@ func (x *Explorer) node(e *Env, t task, hist []string, seq string, memo map[stri
 			bad = true
 		}
 	}
+	sh := StateHash(e, f)
+	if _, loaded := x.stateSet.LoadOrStore(f.Name+sh, true); !loaded {
+		x.States.Add(1)
+	}
 	if x.ColdDump {
-		pop2 := e.Push()
-		r2 := e.Call(f.Path, "Do", "")
-		x.Txs.Add(1)
-		x.R.Eval()
-		pop2()
-		s2, ok2 := r2.Str()
+		// the cold dump is a function of the persisted bytes: run it once per distinct persisted state of the task
+		s2, ok2, r2 := "", true, Res{OK: true}
+		if c, hit := memo.cold[sh]; hit {
+			s2 = c
+			x.ColdHits.Add(1)
+		} else {
+			pop2 := e.Push()
+			r2 = e.Call(f.Path, "Do", "")
+			x.Txs.Add(1)
+			x.R.Eval()
+			pop2()
+			s2, ok2 = r2.Str()
+			if r2.OK && ok2 {
+				memo.cold[sh] = s2
+			}
+		}
 		if !r2.OK || !ok2 {
 			x.addMis(Mismatch{Fam: f.Name, Class: "tx-failed", Hist: append(append([]string{}, hist...), ""), Seq: seq, Got: FirstLine(r2.Log), Want: "#" + ref.Dump})
 			bad = true
@@ -377,20 +397,16 @@ func (x *Explorer) node(e *Env, t task, hist []string, seq string, memo map[stri
 	}
 	x.R.Outcome(fmt.Sprintf("ok:txs=%d", len(hist)))
 	remaining := x.K - len(seq)
-	sh := StateHash(e, f)
-	if _, loaded := x.stateSet.LoadOrStore(f.Name+sh, true); !loaded {
-		x.States.Add(1)
-	}
 	if remaining <= 0 {
 		return
 	}
 	if x.Memo {
-		if r, ok := memo[sh]; ok && r >= remaining {
+		if r, ok := memo.sub[sh]; ok && r >= remaining {
 			x.MemoHits.Add(1)
 			x.R.Outcome("memo-hit(subtree already expanded from the byte-identical persisted state)")
 			return
 		}
-		memo[sh] = remaining
+		memo.sub[sh] = remaining
 	}
 	x.dfs(e, t, hist, seq, memo)
 }
@@ -426,7 +442,7 @@ func (x *Explorer) Report() {
 		m := best[k]
 		f := x.fam(m.Fam)
 		confirmed := "n/a"
-		if !strings.HasPrefix(m.Class, "graph:") {
+		if !strings.HasPrefix(m.Class, "graph:") && !strings.HasPrefix(m.Class, "msgrun") {
 			got, err := x.Replay(f, m)
 			switch {
 			case err != nil:
@@ -536,4 +552,68 @@ func (x *Explorer) fam(name string) *Family {
 		}
 	}
 	return nil
+}
+
+// RunScripts: every op sequence of length <= kmax as ONE MsgRun script that calls each op through a crossing
+// call (the realm is finalized at every call boundary; the object cache is kept) — a third cut pattern between
+// "one call" and "one transaction per op". Compared with the in-memory GnoVM reference.
+func (x *Explorer) RunScripts(kmax int) {
+	type rt struct {
+		f *Family
+		o byte
+	}
+	var tasks []rt
+	for _, f := range x.Fams {
+		for i := 0; i < len(f.Ops); i++ {
+			tasks = append(tasks, rt{f, f.Ops[i]})
+		}
+	}
+	x.R.ParFor(len(tasks), func(i int) {
+		e := x.getEnv()
+		defer x.putEnv(e)
+		t := tasks[i]
+		var gen func(s string)
+		gen = func(s string) {
+			if x.R.Expired() {
+				return
+			}
+			x.runScript(e, t.f, s)
+			if len(s) == kmax {
+				return
+			}
+			for j := 0; j < len(t.f.Ops); j++ {
+				gen(s + string(t.f.Ops[j]))
+			}
+		}
+		gen(string(t.o))
+	})
+}
+
+func (x *Explorer) runScript(e *Env, f *Family, seq string) {
+	var b strings.Builder
+	fmt.Fprintf(&b, "package main\n\nimport r %q\n\nfunc main(cur realm) {\n", f.Path)
+	for i := 0; i < len(seq); i++ {
+		fmt.Fprintf(&b, "\tprintln(r.Op(cross(cur), %q))\n", string(seq[i]))
+	}
+	b.WriteString("\tprintln(\"#\" + r.Dump())\n}\n")
+	pop := e.Push()
+	res := e.Run(b.String())
+	pop()
+	x.RunTxs.Add(1)
+	x.Txs.Add(1)
+	x.R.Eval()
+	x.R.Distinct(f.Name + ":run:" + seq)
+	ref, _ := f.MemRef(seq)
+	want := strings.Join(ref.Rets, "\n") + "\n#" + ref.Dump + "\n"
+	if !res.OK {
+		x.R.Outcome("tx-failed")
+		x.addMis(Mismatch{Fam: f.Name, Class: "msgrun:tx-failed", Hist: []string{"MsgRun(" + seq + ")"}, Seq: seq, Got: FirstLine(res.Log), Want: want})
+		return
+	}
+	if res.Data != want {
+		x.R.Outcome("mismatch")
+		x.addMis(Mismatch{Fam: f.Name, Class: "msgrun", Hist: []string{"MsgRun(" + seq + ")"}, Seq: seq, Got: res.Data, Want: want})
+		return
+	}
+	x.R.Outcome("ok:msgrun")
 }
